@@ -159,11 +159,14 @@ def install(fl) -> bool:
                 for k, v in d.items()}
 
     def mk_context(orig):
-        @contextlib.contextmanager
         def context(self, **kw):
+            cm = orig(self, **kw)          # the library's own object is created when the caller creates it, not when it is entered
+            return traced(self, cm, kw)
+
+        @contextlib.contextmanager
+        def traced(self, cm, kw):
             named = sorted(k for k, v in kw.items() if v is not None)
             before = snap(self)
-            cm = orig(self, **kw)
             cm.__enter__()
             _emit("settings.enter", self, named=named, before=before, inside=snap(self))
             try:
